@@ -1,5 +1,7 @@
 import NomtModel.Core.Complete
 import NomtModel.Core.TermHasher
+import NomtModel.Store.ProbeInv
+import NomtModel.Store.ConstantsAlloc
 /-!
 # C05 — Every key has a verifying, truthful path proof
 -/
@@ -28,5 +30,187 @@ theorem T5_2_proveSpec_truthful (hs : H.Sound) (L : Nat) (S : List (Key × VH)) 
 def exS : List (Key × Nat) := [([false, false], 7), ([false, true], 8), ([true, true], 9)]
 example : ∃ v, verify TH 2 (proveSpec TH 2 exS [true, false]) [true, false] (nodeAt TH 2 0 exS) = .ok v
     ∧ v.confirmNonexistence [true, false] = some true := ⟨_, rfl, by decide⟩
+
+/-! ## T5.5 — the bitbox probing model (`Store/ProbeModel.lean`, `Store/ProbeInv.lean`)
+
+Mirror of `ProbeSequence::next`, the lookup loop of `PageLoader::probe` / `PageLoad::try_complete`,
+`allocate_bucket` and `set_tombstone` over the meta bytes.  `hash` is any function from page ids to
+hashes (the seeded XXH3-64 in the code). -/
+section Probing
+open Nomt.Store Nomt.Store.Probe
+
+/-- T5.5a **period**: `T(k + 2n) ≡ T(k) (mod n)`, so the probe sequence repeats after `2n` steps … -/
+theorem T5_5_period (h n k : Nat) : tri (k + 2 * n) % n = tri k % n ∧ pos h n (k + 2 * n) = pos h n k := by
+  refine ⟨?_, pos_add_period h n k⟩
+  rw [tri_add_two_mul, Nat.add_mul_mod_self_left]
+
+/-- … and every bucket the sequence can ever reach is reached within the first `2n` steps. -/
+theorem T5_5_orbit_covered (h n k : Nat) (hn : 0 < n) : ∃ j, j < 2 * n ∧ pos h n j = pos h n k :=
+  pos_reached_early h n k hn
+
+/-- T5.5a **the lookup terminates and the bound loses nothing**: with any fuel `≥ 2n + 2` the mirrored
+loop answers (never `none` = out of fuel), every such fuel gives the same answer, and this answer is
+the one of a search over ANY larger number `2n + 1 + e` of positions of the sequence. -/
+theorem T5_5_lookup_total (hash : Nat → Nat) (T : Table) (p fuel : Nat) (hn : 0 < T.n)
+    (hf : 2 * T.n + 2 ≤ fuel) :
+    lookup hash T p fuel = some (find hash T p) ∧
+    ∀ e, find hash T p = lookupF T (hash p) p (2 * T.n + 1 + e) 0 :=
+  ⟨lookup_eq_find hash T p fuel hf, fun e => lookupF_bound_free T (hash p) p hn e⟩
+
+/-- T5.5a **`allocate_bucket` terminates**: never out of fuel `≥ 2n + 2`; a success is the first
+non-full bucket of the page's sequence; a failure in a table with `2n + 2 < 10000` means that NO
+bucket of the whole unbounded sequence is free (the bound loses nothing). -/
+theorem T5_5_allocate_total (hash : Nat → Nat) (lim : Nat) (T : Table) (p fuel : Nat) (hn : 0 < T.n)
+    (hf : 2 * T.n + 2 ≤ fuel) :
+    allocate hash lim T p fuel = some ((alloc hash lim T p).map (fun b => (b, T.setFull b (hash p) p))) ∧
+    (∀ b, alloc hash lim T p = some b →
+      ∃ j, j ≤ 2 * T.n ∧ b = pos (hash p) T.n j ∧ isFull (slotAt T.slots b) = false ∧
+        ∀ x, x < j → isFull (slotAt T.slots (pos (hash p) T.n x)) = true) ∧
+    (alloc hash lim T p = none → 2 * T.n + 2 < lim →
+      ∀ k, isFull (slotAt T.slots (pos (hash p) T.n k)) = true) :=
+  ⟨allocate_eq hash lim T p fuel hf, fun b e => allocTop_some e, fun e hl => allocTop_none hn hl e⟩
+
+/-- T5.5b the reachability invariant holds for the empty table … -/
+theorem T5_5_inv_empty (hash : Nat → Nat) (n : Nat) : Probe.Inv hash (emptyTable n) ∧ NoDup (emptyTable n) :=
+  ⟨inv_empty hash n, noDup_empty n⟩
+
+/-- … is kept by a successful `allocate` of a page that is not stored yet (which then is stored, in a
+bucket that was not full; the occupancy grows by one) … -/
+theorem T5_5_inv_allocate (hash : Nat → Nat) (lim : Nat) (T : Table) (p fuel b : Nat) (T' : Table)
+    (hn : 0 < T.n) (hf : 2 * T.n + 2 ≤ fuel) (hI : Probe.Inv hash T) (hD : NoDup T)
+    (hfresh : ∀ b, ¬ Stored T p b) (ha : allocate hash lim T p fuel = some (some (b, T'))) :
+    Probe.Inv hash T' ∧ NoDup T' ∧ T'.n = T.n ∧ Stored T' p b ∧ isFull (slotAt T.slots b) = false ∧
+    occupied T' = occupied T + 1 := by
+  rw [allocate_eq hash lim T p fuel hf] at ha
+  cases hal : alloc hash lim T p with
+  | none => rw [hal] at ha; simp at ha
+  | some b0 =>
+    rw [hal] at ha
+    simp at ha
+    obtain ⟨e1, e2⟩ := ha
+    subst e1; subst e2
+    obtain ⟨j, hj, hb, hfree, hbefore⟩ := allocTop_some hal
+    have hlt : b0 < T.n := by rw [hb]; exact pos_lt hn
+    refine ⟨?_, noDup_setFull hD hlt hfresh, setFull_n _ _ _ _,
+      (stored_setFull hlt p b0).mpr (Or.inl ⟨rfl, rfl⟩), hfree, occupied_setFull hlt hfree⟩
+    rw [hb]; exact inv_setFull hI hn hj hbefore
+
+/-- … and by `free` (tombstone) of any bucket; freeing a full bucket lowers the occupancy by one. -/
+theorem T5_5_inv_free (hash : Nat → Nat) (T : Table) (b : Nat) (hI : Probe.Inv hash T) (hD : NoDup T) :
+    Probe.Inv hash (free T b) ∧ NoDup (free T b) ∧ (free T b).n = T.n ∧
+    (isFull (slotAt T.slots b) = true → occupied (free T b) + 1 = occupied T) :=
+  ⟨inv_free hI b, noDup_free hD b, free_n T b, occupied_free⟩
+
+/-- T5.5c whatever the table: an answered bucket is full, carries the page's tag and **the page's own
+label** — the lookup never returns another page's bucket. -/
+theorem T5_5_lookup_label_check (hash : Nat → Nat) (T : Table) (p fuel b : Nat) (hf : 2 * T.n + 2 ≤ fuel)
+    (h : lookup hash T p fuel = some (some b)) :
+    slotAt T.slots b = .full (tagOf (hash p)) ∧ T.label b = p := by
+  rw [lookup_eq_find hash T p fuel hf] at h
+  obtain ⟨_, _, _, _, hs, hl⟩ := lookupF_sound T (hash p) p _ _ _ (Option.some.inj h)
+  exact ⟨hs, hl⟩
+
+/-- T5.5c **lookups are exact under the invariant**: the mirrored lookup returns bucket `b` iff page
+`p` is stored in `b`, and "absent" iff `p` is stored nowhere — a stored page is never missed. -/
+theorem T5_5_lookup_correct (hash : Nat → Nat) (T : Table) (p fuel : Nat) (hf : 2 * T.n + 2 ≤ fuel)
+    (hI : Probe.Inv hash T) (hD : NoDup T) :
+    (∀ b, lookup hash T p fuel = some (some b) ↔ Stored T p b) ∧
+    (lookup hash T p fuel = some none ↔ ∀ b, ¬ Stored T p b) := by
+  rw [lookup_eq_find hash T p fuel hf]
+  constructor
+  · intro b
+    rw [← lookupF_iff_stored hI hD p b]
+    exact ⟨fun h => Option.some.inj h, fun h => congrArg some h⟩
+  · rw [← lookupF_none_iff hI hD p]
+    exact ⟨fun h => Option.some.inj h, fun h => congrArg some h⟩
+
+/-- T5.5c `occupied` = number of full meta bytes = number of stored pages: the stored page ids in
+bucket order form a duplicate-free list of exactly that length. -/
+theorem T5_5_occupied (T : Table) (hD : NoDup T) :
+    (storedPages T).Nodup ∧ (storedPages T).length = occupied T ∧
+    ∀ p, p ∈ storedPages T ↔ ∃ b, Stored T p b :=
+  storedPages_spec hD
+
+/-- T5.5 **the table is a finite map**: every state reached from the empty table by the operations of
+`prepare_sync` (fresh page ⇒ allocate, known page ⇒ same bucket, cleared page ⇒ tombstone its bucket)
+satisfies the invariant; an inserted page is found in its bucket, a removed page is not found, and no
+operation on `p` changes what a lookup of another page returns. -/
+theorem T5_5_table_is_map (hash : Nat → Nat) (lim n : Nat) (hn : 0 < n) (ops : List Probe.Op) :
+    let T := Probe.run hash lim (emptyTable n) ops
+    Probe.Inv hash T ∧ NoDup T ∧ T.n = n ∧
+    (∀ p b, find hash T p = none → alloc hash lim T p = some b →
+        find hash (Probe.step hash lim T (.insert p)) p = some b) ∧
+    (∀ p b, find hash T p = some b → find hash (Probe.step hash lim T (.insert p)) p = some b) ∧
+    (∀ p, find hash (Probe.step hash lim T (.remove p)) p = none) ∧
+    (∀ p q op, q ≠ p → op = Probe.Op.insert p ∨ op = Probe.Op.remove p →
+        find hash (Probe.step hash lim T op) q = find hash T q) := by
+  intro T
+  have hn0 : (emptyTable n).n = n := by simp [emptyTable, Table.n]
+  have hnT : T.n = n := by rw [run_n, hn0]
+  obtain ⟨hI, hD⟩ := run_inv (lim := lim) ops (by rw [hn0]; exact hn) (inv_empty hash n) (noDup_empty n)
+  have hnT' : 0 < T.n := by rw [hnT]; exact hn
+  refine ⟨hI, hD, hnT, ?_, ?_, ?_, ?_⟩
+  · intro p b h1 h2; exact (find_step_insert hnT' hI hD p).1 h1 b h2
+  · intro p b h1; exact (find_step_insert hnT' hI hD p).2.1 b h1
+  · intro p; exact (find_step_remove hnT' hI hD p).1
+  · intro p q op hq hop
+    rcases hop with e | e
+    · rw [e]; exact (find_step_insert hnT' hI hD p).2.2 q hq
+    · rw [e]; exact (find_step_remove hnT' hI hD p).2 q hq
+
+/-- T5.5 the maintained counter (`occupied_buckets_delta`) equals `full_count` after every operation -/
+theorem T5_5_occupied_counter (hash : Nat → Nat) (lim : Nat) (T : Table) (hn : 0 < T.n) (p : Nat) :
+    occupied (Probe.step hash lim T (.insert p)) =
+      occupied T + (if find hash T p = none ∧ (alloc hash lim T p).isSome then 1 else 0) ∧
+    occupied (Probe.step hash lim T (.remove p)) + (if (find hash T p).isSome then 1 else 0) = occupied T :=
+  ⟨occupied_step_insert hn p, occupied_step_remove p⟩
+
+/-! ### non-vacuity: a 10-bucket table (not a power of two) and an 8-bucket table
+
+All pages start at bucket 3 (worst collisions); tags alternate between 0 and 40.  Modulo 10 the triangular numbers
+reach only the residues {0, 1, 3, 5, 6, 8}, so the sequence of every page is 3, 4, 6, 9, 3, 8, 4, 1, … -/
+
+def exHash (p : Nat) : Nat := (p % 2) * (40 * 2 ^ 57) + 3
+
+/-- insert 1, 2, 3; remove 2 (bucket 4 becomes a tombstone that keeps the stale label 2); insert 4
+(re-uses the tombstone) -/
+def exA : Table := Probe.run exHash ALLOC_ATTEMPTS (emptyTable 10) [.insert 1, .insert 2, .insert 3, .remove 2]
+def exB : Table := Probe.step exHash ALLOC_ATTEMPTS exA (.insert 4)
+
+example : exA.slots = [.empty, .empty, .empty, .full 40, .tombstone, .empty, .full 40, .empty, .empty, .empty] := by decide
+example : exA.label 4 = 2 ∧ lookup exHash exA 2 22 = some none := by decide
+example : lookup exHash exA 3 22 = some (some 6) ∧ lookup exHash exA 1 22 = some (some 3) := by decide
+example : exB.slots = [.empty, .empty, .empty, .full 40, .full 0, .empty, .full 40, .empty, .empty, .empty] := by decide
+example : lookup exHash exB 4 22 = some (some 4) ∧ lookup exHash exB 2 22 = some none
+    ∧ lookup exHash exB 3 22 = some (some 6) ∧ occupied exB = 3 ∧ storedPages exB = [1, 4, 3] := by decide
+/-- less fuel than `2n + 2` can be the reason for no answer: the hypothesis of T5.5a is needed -/
+example : lookup exHash exB 2 1 = none := by decide
+
+/-- six pages fill the whole orbit {3, 4, 6, 9, 8, 1} of bucket 3 modulo 10: the seventh allocation
+fails with `Exhausted` although 4 of 10 buckets are empty, and looking up an absent page — no
+reachable bucket is empty — terminates with "absent" (before the repair: an endless loop) -/
+def exFull : Table := Probe.run exHash ALLOC_ATTEMPTS (emptyTable 10) [.insert 1, .insert 2, .insert 3, .insert 4, .insert 5, .insert 6]
+example : occupied exFull = 6 ∧ alloc exHash ALLOC_ATTEMPTS exFull 7 = none
+    ∧ (allocate exHash ALLOC_ATTEMPTS exFull 7 22).map (·.isSome) = some false
+    ∧ lookup exHash exFull 7 22 = some none ∧ lookup exHash exFull 6 22 = some (some 1) := by decide
+
+/-- a power of two: the orbit is the whole table; 8 pages fill all 8 buckets -/
+def exP2 : Table := Probe.run exHash ALLOC_ATTEMPTS (emptyTable 8)
+  [.insert 1, .insert 2, .insert 3, .insert 4, .insert 5, .insert 6, .insert 7, .insert 8, .remove 5, .insert 9]
+example : occupied exP2 = 8 ∧ lookup exHash exP2 5 18 = some none ∧ lookup exHash exP2 10 18 = some none
+    ∧ lookup exHash exP2 9 18 = some (some 5) ∧ storedPages exP2 = [7, 4, 6, 1, 2, 9, 3, 8] := by decide
+
+/-- T5.5 (constants) the probing model uses the code's numbers: the give-up counter of
+`allocate_bucket`, the tag bits of `full_entry` (`hash >> 57`, 7 bits), and the bound
+`step > 2 * len ⇒ Exhausted` — extracted from `bitbox/mod.rs`, `meta_map.rs` on every run -/
+theorem T5_5_const_probe :
+    ALLOC_ATTEMPTS = Gen.ALLOCATE_BUCKET_ATTEMPTS ∧
+    (∀ h, tagOf h = h / 2 ^ Gen.FULL_ENTRY_SHIFT % Gen.FULL_MASK) ∧
+    (∀ (m : List Slot) (fuel : Nat) (s : PS), s.step > Gen.PROBE_BOUND_FACTOR * m.length →
+      PS.next m (fuel + 1) s = some (.exhausted, s)) ∧
+    Gen.PROBE_BOUND_FACTOR = 2 :=
+  ⟨ConstantsCheck.alloc_attempts, ConstantsCheck.tag_of, ConstantsCheck.probe_bound, ConstantsCheck.probe_constants.1⟩
+
+end Probing
 
 end Nomt.C05
